@@ -266,6 +266,19 @@ Section Reduce.
   Qed.
 End Reduce.
 
+(* at every nesting level the all-reduced result on every process equals the serial result *)
+Lemma allreduce_eq_serial (A : Type) (op : A -> A -> A) (e : A)
+  (op_assoc : forall x y z, op x (op y z) = op (op x y) z) (op_e_l : forall x, op e x = x)
+  (f : Z -> A) level size start stop rank : 1 <= size -> start <= stop ->
+  after_allreduce op e level size
+    (fun r => msum A op e (map f (api_block level FromStart size start stop (Z.of_nat r)))) rank
+  = msum A op e (map f (zrange start stop)).
+Proof.
+  intros Hs Hss. unfold after_allreduce, api_block. destruct (level =? 1).
+  - exact (reduce_eq_serial A op e op_assoc op_e_l f size start stop Hs Hss).
+  - reflexivity.
+Qed.
+
 (* list / array helpers are the range helper on [0, len) *)
 Lemma list_blocks_partition size len : 1 <= size -> 0 <= len ->
   flat_map (fun r => list_block FromStart size len (Z.of_nat r)) (seq 0 (Z.to_nat size)) = zrange 0 len.
